@@ -123,7 +123,8 @@ def run(ctx):
                 k = " <-> ".join(fr[:2]) or blk[:200]
                 if k not in seen:
                     seen[k] = (head, fr, blk[:3000])
-        for k, (head, fr, blk) in list(seen.items())[:8]:
+        ev["distinct_race_pairs"] = len(seen)
+        for k, (head, fr, blk) in list(seen.items())[:3]:
             res["violations"].append({"what": "DATA RACE reported by the race detector: %s | during %s" % (k, head),
                                       "replay": dict(replay, round=head, frames=fr, report=blk)})
     if rc not in (0, 66):
